@@ -148,6 +148,10 @@ def _ghost_get(ctx, args, kwargs):
     return ctx.ghost[args[0]]
 
 
+def _event_log(ctx, args, kwargs):
+    return ctx.event_log
+
+
 def _ghost_set(ctx, args, kwargs):
     ctx.ghost[args[0]] = args[1]
     return True
@@ -213,6 +217,7 @@ ModelsMixin.FUNCTION_MODELS.update({
     "pyvc.spec.yaml_file": (lambda ctx, args, kwargs: "config.yaml"),
     "pyvc.spec.ghost_get": _ghost_get,
     "pyvc.spec.ghost_set": _ghost_set,
+    "pyvc.spec.event_log": _event_log,
     "pyvc.spec.seq_uncons": _seq_uncons,
     "pyvc.spec.seq_snoc": _seq_snoc,
     "pyvc.spec.seq_empty": _seq_empty,
